@@ -90,6 +90,9 @@ func TestVerifKey(t *testing.T) {
 type vmItemJ struct {
 	Key   []int `json:"key"`
 	Index int   `json:"index"`
+	// block refinement (vmMergerCase.Scale > 1): this item stands for K items with indices Base .. Base+K-1
+	K    int `json:"k"`
+	Base int `json:"base"`
 }
 type vmProbe struct {
 	I      int `json:"i"`
@@ -101,6 +104,9 @@ type vmMergerCase struct {
 	Tac    bool        `json:"tac"`
 	Lists  [][]vmItemJ `json:"lists"`
 	Probes []vmProbe   `json:"probes"`
+	// Scale > 1: block refinement of the behaviour - every item stands for K items (1 or Scale, chosen per item) with the
+	// same key and consecutive indices Base .. Base+K-1, each run kept in rank order; probes are real indices
+	Scale int `json:"scale"`
 }
 
 func TestVerifMerger(t *testing.T) {
@@ -122,16 +128,30 @@ func TestVerifMerger(t *testing.T) {
 			for p, l := range c.Lists {
 				lists[p] = []Result{}
 				for _, it := range l {
-					r := Result{item: vmItem("", int32(it.Index))}
-					r.points = [4]uint16{uint16(it.Key[3]), uint16(it.Key[2]), uint16(it.Key[1]), uint16(it.Key[0])}
-					lists[p] = append(lists[p], r)
+					k, base := 1, it.Index
+					if c.Scale > 1 {
+						k, base = it.K, it.Base
+					}
+					for j := 0; j < k; j++ {
+						jj := j
+						if c.Sorted && c.Tac {
+							jj = k - 1 - j // a sorted run under --tac lists equal keys by decreasing index
+						}
+						r := Result{item: vmItem("", int32(base+jj))}
+						r.points = [4]uint16{uint16(it.Key[3]), uint16(it.Key[2]), uint16(it.Key[1]), uint16(it.Key[0])}
+						lists[p] = append(lists[p], r)
+					}
 				}
 			}
 			mg := NewMerger(nil, lists, c.Sorted, c.Tac, revision{}, 0)
 			probes := []vmProbe{}
 			for _, p := range c.Probes {
 				r := mg.Get(p.I)
-				probes = append(probes, vmProbe{p.I, int(r.item.Index()), len(mg.merged)})
+				ml := len(mg.merged)
+				if c.Scale > 1 {
+					ml = 0 // how far the merge has advanced is compared on the unscaled behaviours only
+				}
+				probes = append(probes, vmProbe{p.I, int(r.item.Index()), ml})
 			}
 			ranked := []int{}
 			for i := 0; i < mg.Length(); i++ {
